@@ -388,7 +388,7 @@ def _pf_eval(F, f, n, stepd, facts, depth=0):
         if depth < 3 and not a:
             for g in F.resolve(n):
                 rets = [x for x in g.nodes() if x["k"] == "return" and x.get("c")]
-                if len(rets) == 1 and g.body is not None and len([x for x in g.body.get("c", ())]) == 1:
+                if len(rets) == 1 and g.body is not None:
                     return _pf_eval(F, g, rets[0]["c"][0], None, (), depth + 1)
         return frozenset()
     if k == "bin" and n["op"] in ("*", "/", "+"):
